@@ -264,9 +264,13 @@ pub fn run_program(p: &Program, listing: &[usize]) -> Result<Vec<ParentSeen>, St
                 })
             })
             .collect();
+        // a cyclic program is held by the first parent only: in the second parent every instance is absolute, so the
+        // library has a well-formed cell *after* the ill-formed one (the error must still be reported)
+        let all_abs = pi == 1 && p.has_cycle();
         for (i, d) in p.insts.iter().enumerate() {
             let loc = match &d.loc {
                 Loc::Abs(x, y) => Place::Abs(Xy::from(((*x + shift_of(pi).0) as isize, (*y + shift_of(pi).1) as isize))),
+                Loc::Rel { .. } if all_abs => Place::Abs(Xy::from((7 * i as isize, 100 + 9 * i as isize))),
                 Loc::Rel { to, side, align, sep } => {
                     let s = match sep {
                         Sep::None => Separation::default(),
